@@ -45,7 +45,7 @@ def classify_mismatch(m):
     """narrow classifier for model/implementation disagreements that are recorded defects of the native blob"""
     fields = m["case"].split("\t")
     kind = fields[1]
-    if kind not in ("vn", "uf64", "uf32"):
+    if kind not in ("vn", "uf64", "uf32", "nb64"):
         return None
     try:
         data = bytes.fromhex(fields[2]) if fields[2] != "-" else b""
@@ -171,7 +171,7 @@ def run(ctx):
             model_cases += len(impl)
             for a, b, cs in zip(impl, model, cases):
                 kind = cs.split("\t")[1]
-                if kind in ("vn", "f64", "f32", "uf64", "uf32"):
+                if kind in ("vn", "f64", "f32", "uf64", "uf32", "nb64"):
                     checker_apps += 1
                 if a != b:
                     mm = {"file": n, "case": cs, "impl": a, "model": b}
@@ -265,7 +265,7 @@ def run(ctx):
         kind = fields[1]
         if kind in ("f64", "f32"):
             what = "printed float fails the verified shortest/round-trip/notation check (code %s)" % m["model"].split("\t")[-1]
-        elif kind in ("vn", "uf64", "uf32"):
+        elif kind in ("vn", "uf64", "uf32", "nb64"):
             what = "parsed float is not the value the specification (round to nearest even of the exact rational) gives"
         else:
             what = "implementation and Coq model disagree"
